@@ -22,6 +22,8 @@ UNIT_CATS = ('convert-from-unit', 'sum-mix', 'add-units', 'to-storage', 'from-st
 def run(ctx):
     from .configtime import decisions_not_taken_on_display_values as _coarse
     _coarse(ctx, 'C10.R1', ('Container', 'Plate', 'PlateSlicer', 'Recipe', 'RecipeStep'))
+    from .configtime import observers_convert_to_the_requested_unit as _obs_units
+    _obs_units(ctx, 'C10.R1')
     from .configtime import no_shared_mutable_defaults as _mutdef
     _mutdef(ctx, 'C10.R1', classes=('Container', 'Plate'))
     from .configtime import precision_zero_is_a_value as _prec0
